@@ -140,6 +140,81 @@ def unicode_rule_names() -> list[str]:
     return sorted(UNICODE_RULES)
 
 
+# General categories written from the Unicode standard's names (UAX #44 table 12), not from the repository's table.
+GC_OF_RULE = {
+    "LETTER": "L*", "CASED_LETTER": "Lu Ll Lt", "UPPERCASE_LETTER": "Lu", "LOWERCASE_LETTER": "Ll", "TITLECASE_LETTER": "Lt", "MODIFIER_LETTER": "Lm",
+    "OTHER_LETTER": "Lo", "MARK": "M*", "NONSPACING_MARK": "Mn", "SPACING_MARK": "Mc", "ENCLOSING_MARK": "Me", "NUMBER": "N*", "DECIMAL_NUMBER": "Nd",
+    "LETTER_NUMBER": "Nl", "OTHER_NUMBER": "No", "PUNCTUATION": "P*", "CONNECTOR_PUNCTUATION": "Pc", "DASH_PUNCTUATION": "Pd", "OPEN_PUNCTUATION": "Ps",
+    "CLOSE_PUNCTUATION": "Pe", "INITIAL_PUNCTUATION": "Pi", "FINAL_PUNCTUATION": "Pf", "OTHER_PUNCTUATION": "Po", "SYMBOL": "S*", "MATH_SYMBOL": "Sm",
+    "CURRENCY_SYMBOL": "Sc", "MODIFIER_SYMBOL": "Sk", "OTHER_SYMBOL": "So", "SEPARATOR": "Z*", "SPACE_SEPARATOR": "Zs", "LINE_SEPARATOR": "Zl",
+    "PARAGRAPH_SEPARATOR": "Zp", "OTHER": "C*", "CONTROL": "Cc", "FORMAT": "Cf", "SURROGATE": "Cs", "PRIVATE_USE": "Co", "UNASSIGNED": "Cn",
+}
+# derived properties that CPython answers from its own tables
+STR_PROPS = {
+    "XID_START": lambda ch: ch != "_" and ch.isidentifier(),
+    "XID_CONTINUE": lambda ch: ("a" + ch).isidentifier(),
+    "UPPERCASE": lambda ch: ch.isupper(),
+    "LOWERCASE": lambda ch: ch.islower(),
+}
+# Code points whose properties the Unicode standard itself changed after the version of CPython's tables (15.0): U+0295 (gc Ll -> Lo),
+# U+200C / U+200D (XID_Continue since 15.1).  The regex library carries newer tables than unicodedata; neither reading is the repository's doing.
+UNICODE_VERSION_SKEW = {0x0295, 0x200C, 0x200D}
+_STABLE: list[tuple[int, str]] | None = None
+
+
+def stable_code_points() -> list[tuple[int, str]]:
+    """(code point, general category) for code points whose category is the same in Unicode 3.2 and in CPython's current tables
+    (so that the version of anybody's tables cannot matter), plus the noncharacters (Cn for ever).  The two huge uniform blocks
+    (Lo = CJK / Hangul, Co = private use) are thinned to every 16th code point plus their first and last members."""
+    global _STABLE  # noqa: PLW0603
+    if _STABLE is None:
+        import unicodedata as ud
+
+        old = ud.ucd_3_2_0
+        out = []
+        prev_cat = None
+        for c in range(MAXCP):
+            ch = chr(c)
+            a, b = old.category(ch), ud.category(ch)
+            if (c & 0xFFFE) == 0xFFFE or 0xFDD0 <= c <= 0xFDEF:
+                cat = "Cn"
+            elif a == b and a != "Cn":
+                cat = b
+            else:
+                prev_cat = None
+                continue
+            if c in UNICODE_VERSION_SKEW:
+                continue
+            if cat in ("Lo", "Co") and prev_cat == cat and c % 16 and c + 1 < MAXCP and ud.category(chr(c + 1)) == cat:
+                continue
+            prev_cat = cat
+            out.append((c, cat))
+        _STABLE = out
+    return _STABLE
+
+
+def unicode_abs_pred(name: str):
+    """-> predicate(ch, cat) for the Unicode rules that have an oracle independent of the regex library, else None."""
+    if name in GC_OF_RULE:
+        spec = GC_OF_RULE[name]
+        if spec.endswith("*"):
+            return lambda ch, cat, p_=spec[0]: cat[0] == p_  # noqa: ARG005
+        cats = frozenset(spec.split())
+        return lambda ch, cat, s_=cats: cat in s_  # noqa: ARG005
+    if name in STR_PROPS:
+        return lambda ch, cat, f_=STR_PROPS[name]: bool(f_(ch))  # noqa: ARG005
+    return None
+
+
+UNICODE_CONTEXTS = {
+    # id: (grammar body, how the answer follows from "NAME accepts c" (base) and the code point)
+    "choice": ('"0" | {} | \'x\'..\'z\'', lambda base, c: base or c in (0x30, 0x78, 0x79, 0x7A)),
+    "choice-last": ('\'0\'..\'1\' | "_" | {}', lambda base, c: base or c in (0x30, 0x31, 0x5F)),
+    "not": ("!{} ~ ANY", lambda base, c: not base),
+    "not-not": ("&{} ~ !\"0\" ~ ANY", lambda base, c: base and c != 0x30),
+}
+
+
 # ------------------------------------------------------------------------- escapes
 
 ESCAPES: list[tuple[str, int]] = [
@@ -379,6 +454,68 @@ def worker(shard: dict) -> dict:  # noqa: PLR0912
                     break
             acc.count("unicode_rule_tasks")
             acc.count("unicode_code_points_accepted_by_I", nacc)
+        elif kind == "uabs":
+            # absolute oracle for the Unicode rules CPython can answer independently of the regex library, on version-stable code points
+            name, mode = task["rule"], task["mode"]
+            pred = unicode_abs_pred(name)
+            md = modes_for("u:" + name, name)
+            obj = md.get(mode)
+            if obj is None:
+                acc.violation("c12-load", {"spec": name, "grammar": md.text, "mode": mode, "what": "unicode rule does not load / generate", "observed": list(md.errors[mode])})
+                continue
+            pts = stable_code_points()[task["off"] :: task["stride"]]
+            nbad = nacc = 0
+            for c, cat in pts:
+                ch_ = chr(c)
+                got = accepts(obj, ch_)
+                want = pred(ch_, cat)
+                if got is True:
+                    nacc += 1
+                if got != want:
+                    nbad += 1
+                    if nbad <= 2:
+                        acc.violation("c12-unicode-membership", {"spec": name, "grammar": md.text, "mode": mode, "code_point": c, "char": ch_, "category": cat, "expected_member": want, "observed": got})
+            if nbad > 2:
+                acc.nviol += nbad - 2
+            acc.count("code_points_tested", len(pts))
+            acc.count("unicode_abs_code_points", len(pts))
+            acc.count("unicode_abs_accepted", nacc)
+            acc.count("unicode_abs_tasks")
+        elif kind == "ucomp":
+            # a Unicode rule inside the constructs the optimizer rewrites (squashed choices) and under predicates:
+            # the answer follows from what the bare rule answers in the plain interpreter
+            name = task["rule"]
+            base_obj = modes_for("u:" + name, name).get("I")
+            if base_obj is None:
+                continue  # reported by the "unicode" task
+            ctxs = {}
+            for cid, (body, _f) in UNICODE_CONTEXTS.items():
+                mdc = modes_for(f"uc:{cid}:{name}", body.format(name))
+                for mode in ("I", "O", "GI", "GO"):
+                    o = mdc.get(mode)
+                    if o is None:
+                        acc.violation("c12-load", {"spec": f"{cid}:{name}", "grammar": mdc.text, "mode": mode, "what": "does not load / generate", "observed": list(mdc.errors[mode])})
+                    else:
+                        ctxs[(cid, mode)] = (o, mdc.text)
+            nbad = 0
+            pts = list(range(0, 0x80)) + list(range(0x80 + task["off"], MAXCP, task["step"]))
+            for c in pts:
+                ch_ = chr(c)
+                base = accepts(base_obj, ch_)
+                if base is not True and base is not False:
+                    continue
+                for (cid, mode), (o, gtext) in ctxs.items():
+                    got = accepts(o, ch_)
+                    want = bool(UNICODE_CONTEXTS[cid][1](base, c))
+                    if got != want:
+                        nbad += 1
+                        if nbad <= 2:
+                            acc.violation("c12-unicode-context", {"spec": f"{cid}:{name}", "grammar": gtext, "mode": mode, "code_point": c, "char": ch_, "bare_rule_accepts": base, "expected_member": want, "observed": got})
+                acc.count("code_points_tested", len(ctxs) + 1)
+                acc.count("unicode_context_probes", len(ctxs))
+            if nbad > 2:
+                acc.nviol += nbad - 2
+            acc.count("unicode_context_tasks")
         elif kind == "escape":
             text, cp, ctx = task["text"], task["cp"], task["ctx"]
             gtext = text if ctx == "string" else f"{text}..{text}"
@@ -511,6 +648,20 @@ def main(tier: str, seed: int) -> int:
         else:
             for k in range(2):
                 tasks.append({"kind": "unicode", "rule": n, "lo": k * (MAXCP // 2), "hi": (k + 1) * (MAXCP // 2)})
+    abs_names = [n for n in names if unicode_abs_pred(n) is not None]
+    for n in abs_names:
+        for mode in ("I", "O", "GI", "GO"):
+            if run.quick:
+                # every rule with an absolute oracle in every mode; modes take different halves of the stable code points
+                tasks.append({"kind": "uabs", "rule": n, "mode": mode, "off": 0 if mode in ("I", "GO") else 1, "stride": 2})
+            else:
+                for off in range(2):
+                    tasks.append({"kind": "uabs", "rule": n, "mode": mode, "off": off, "stride": 2})
+    for n in names if not run.quick else sorted(set(rnd.sample(names, 16)) | {"LETTER", "UPPERCASE_LETTER", "NUMBER", "XID_CONTINUE", "WHITE_SPACE", "LATIN", "HAN", "EMOJI"}):
+        if run.quick:
+            tasks.append({"kind": "ucomp", "rule": n, "off": rnd.randrange(23), "step": 23})
+        else:
+            tasks.append({"kind": "ucomp", "rule": n, "off": rnd.randrange(11), "step": 11})
     for text, cp in ESCAPES:
         tasks.append({"kind": "escape", "text": text, "cp": cp, "ctx": "string"})
     for text, cp in CHAR_ESCAPES:
